@@ -125,6 +125,24 @@ def test_recogniser():
     assert c18.barline_export('=12:|!|:;') == '=:|!|:;' and c18.barline_export('==') == '==' and c18.barline_export('=7') == '='
 
 
+def test_tlc_graph():
+    """tla/SpinePaths.tla explored by TLC: the dump parses, the graph is closed and every state has a witness (skipped, loudly, if TLC cannot run)"""
+    from kv import tlcspine
+    try:
+        states, edges, init, stats = tlcspine.tlc_graph(1, 3)
+    except RuntimeError as e:
+        print('selftest: TLC not usable here, C02 pass (d) will be skipped:', str(e)[:200])
+        return
+    assert states[init] == (('h',), (0,), (1,)), states[init]
+    assert len(states) == stats['tlc_distinct_states'] and all(u in states and v in states for u, v in edges)
+    path = tlcspine.witnesses(states, edges, init)
+    assert len(path) == len(states)
+    rows = {s[0] for s in states.values()}
+    assert ('s',) in rows and ('j', 'j') in rows and ('j', 'j', 'j') in rows and ('n', 'j', 'j') in rows and ('j',) not in rows and ('s', 's', 's') not in rows
+    by = {(s[0], s[1]): s[2] for s in states.values()}
+    assert by[(('s', 'n'), (0, 0, 0))] == (1, 1, 2) and by[(('j', 'j', 't'), (0,))] == (1,) and by[(('t', 'j', 'j'), (0,))] == (2,)
+
+
 def test_alphabet():
     assert A.dur_parts('8.') == ['8', '.'] and A.dur_parts('16%3') == ['16%3'] and A.dur_parts('8qq') == ['8', 'qq'] and A.dur_parts('2..') == ['2', '.', '.']
     assert A.dur_parts('8.q') == ['8', '.', 'q'] and A.dur_parts('') == []
